@@ -156,6 +156,12 @@ private:
   {
     ItemBlock* next;
   };
+  enum
+  {
+    // size of one slot (link header followed by the element), rounded up so that the header of
+    // every slot of a block is properly aligned
+    slotSize = (sizeof(Item) + sizeof(T) + sizeof(Item*) - 1) / sizeof(Item*) * sizeof(Item*)
+  };
 
 private:
   Iterator _end;
@@ -171,12 +177,12 @@ private:
     Item* item = freeItem;
     if(!item)
     {
-      ItemBlock* itemBlock = (ItemBlock*)new char[sizeof(ItemBlock) + (sizeof(Item) + sizeof(T)) * 4];
+      ItemBlock* itemBlock = (ItemBlock*)new char[sizeof(ItemBlock) + slotSize * 4];
       itemBlock->next = blocks;
       blocks = itemBlock;
-      for(Item* i = (Item*)(itemBlock + 1), * end = (Item*)((char*)i + 4 * (sizeof(Item) + sizeof(T)));
+      for(Item* i = (Item*)(itemBlock + 1), * end = (Item*)((char*)i + 4 * slotSize);
         i < end; 
-        i = (Item*)((char*)i + (sizeof(Item) + sizeof(T))))
+        i = (Item*)((char*)i + slotSize))
       {
         i->prev = item;
         item = i;
